@@ -295,6 +295,18 @@ func init() {
 		v.c.trusted["sort.Slice permutes the slice in place (resulting order not modelled)"] = true
 		return nil
 	})
+	// math/rand: Intn/Int63n/Int31n panic ("invalid argument") unless n > 0
+	for _, n := range []string{"math/rand.Rand.Intn", "math/rand.Rand.Int63n", "math/rand.Rand.Int31n", "math/rand.Intn", "math/rand.Int63n", "math/rand.Int31n"} {
+		name := n
+		reg(name, true, func(v *FnV, st *State, call *ast.CallExpr, recv *Value, args []Value) []Value {
+			v.safety(st, "call:Intn", call, sGt(v.mathInt(args[0]), "0"), shortName(name)+": argument must be positive")
+			r := v.havocResults(st, call, "rnd")
+			if len(r) == 1 {
+				st.assume(sAnd(sLe("0", v.mathInt(r[0])), sLt(v.mathInt(r[0]), v.mathInt(args[0]))))
+			}
+			return r
+		})
+	}
 	reg("strings.LastIndex", true, func(v *FnV, st *State, call *ast.CallExpr, recv *Value, args []Value) []Value {
 		s, t := args[0].S, args[1].S
 		if lit, ok := v.litContent(t); ok && len(lit) == 1 {
